@@ -977,3 +977,142 @@ Print Assumptions C03_order_current.
 Print Assumptions C03_format_current.
 Print Assumptions C03_widths_current.
 Print Assumptions C03_layout_composition_current.
+
+(* ==== BEGIN block "against the ORIGINAL object" (audit D7) ======================================
+   Every round trip above (C03_written_sections_read_back, C03_file_first_pass, C03_file_roundtrip)
+   compares what is read back with hs_las hs = the in-memory file AFTER write returned
+   (C03_written_state); only C03_other_text_unchanged relates it to the file BEFORE the call.  A
+   writer that rewrote every item before printing would satisfy them.  C03_roundtrip_vs_original
+   composes C03_file_roundtrip with the frame of write (C16_header_frame, C16_data_frame =
+   Proofs/WriteIdemProofs.v write_header_frame / write_data_frame; Proofs/RoundTripOriginal.v):
+   under the hypotheses of C03_file_roundtrip, what the reader returns for the written text equals,
+   item by item and in order, the items of the ORIGINAL object m (never hs_las hs, never m') read
+   through expected_item (mnemonic case-mapped, unit strip_brackets, value re-read from its text,
+   description) up to EXACTLY these differences:
+     ~Curves     only the unit of curve 0 may differ (alignment with STRT's unit); curves 1.. are
+                 the original's;
+     ~Parameter  every value is standardize_value (value, unit) of the original's (stdf): unchanged
+                 unless the value is empty/None (-> 0 on an item with a unit, "" without);
+     ~Well       every item NOT registered under STRT / STOP / STEP (is_sss false) is the original's
+                 with standardize_value; the three refreshed items keep mnemonic and description
+                 (unit and value are the documented refresh: C16_truth);
+     ~Version    the original items after the documented edits of the written copy: WRAP set when
+                 wrap= is given (set_item), the value of DLM replaced by SPACE, VERS substituted by
+                 the 1.2 / 2.0 item (written_version_items);
+     ~Other      the original text, every line stripped (other_read); no custom section.
+   C03_written_version_items says what hs_vers_items is, in terms of the ~Version items in memory.
+
+   EXCLUSION named (it is in section_ok through starts_ok, see the header and C03_section_ok_unfold,
+   and was missing from DESIGN 9.4's list): the hypotheses header_hyps exclude every item whose
+   MNEMONIC STARTS WITH '#' (a comment character of the reader) OR WITH '~': write prints such an
+   item as a line which the reader skips as a comment, resp. takes for a section title -- the item
+   does not come back.  The property text ("LAS-conformant fields: mnemonic without '.' or ':'")
+   does not exclude such mnemonics; for them C03 is decided by the harness runs only. *)
+Require Import WriteStateProofs WriteIdemProofs RoundTripOriginal.
+
+Theorem C03_written_version_items : forall fmtv fmt_diff fstr fzero numeq ver wrapo ifmt m hs,
+  write_sections fmtv fmt_diff fstr fzero numeq ver wrapo ifmt m = Some hs ->
+  hs_vers_items hs =
+  written_version_items (s_transforms (l_version (m_las m))) (hs_version hs) (s_items (l_version (hs_las hs))).
+Proof. exact write_sections_vers_items. Qed.
+
+Theorem C03_roundtrip_vs_original :
+  forall fmtv fmt_diff fmt_pi fstr fzero numeq fhex ro o m text m' hs dl rts vit nt,
+  write fmtv fmt_diff fmt_pi fstr fzero numeq o m = WOk text m' ->
+  write_sections fmtv fmt_diff fstr fzero numeq (wo_version o) (wo_wrap o) (col_fmt o 0%nat) m = Some hs ->
+  dsh_of fmtv fmt_pi fstr o hs = Some dl ->
+  las_null_text fstr (hs_las hs) = Some nt ->
+  opt_all (map (row_text fmtv fmt_pi o (Some nt) 0%nat) (las_rows (hs_las hs))) = Some rts ->
+  header_hyps fstr ro hs vit -> text_hyps o hs ->
+  Forall (Forall (WriteDataProofs.wr_tok fhex)) (WriteDataProofs.tok_matrix fmtv o nt (las_rows (hs_las hs))) ->
+  forallb is_space (wo_lhs_spacer o) = true -> forallb is_space (wo_spacer o) = true ->
+  data_text_hyps fmtv o nt (las_rows (hs_las hs)) ->
+  exists ps l,
+    find_sections (lines_keep text) <> [] /\
+    first_pass ro (lines_keep text) ps0 (find_sections (lines_keep text)) = inl ps /\
+    p_las ps = l /\
+    (o_ignore_data ro = true -> read fhex fstr numeq ro text = ROk l) /\
+    let c := o_mcase ro in
+    let M := m_las m in
+    Forall2 (fun a r => exists u, r = meta (expected_item fstr KCurves c (set_unit a u)))
+            (s_items (l_curves M)) (map meta (s_items (l_curves l))) /\
+    map meta (tl (s_items (l_curves l))) =
+      map (fun a => meta (expected_item fstr KCurves c a)) (tl (s_items (l_curves M))) /\
+    map meta (s_items (l_params l)) =
+      map (fun a => meta (expected_item fstr KParameter c (stdf fzero a))) (s_items (l_params M)) /\
+    Forall2 (fun a r =>
+               (is_sss (s_transforms (l_well M)) (i_sess a) = false ->
+                r = meta (expected_item fstr KWell c (stdf fzero a))) /\
+               exists u v, r = meta (expected_item fstr KWell c (mkitem (i_orig a) (i_sess a) u v (i_descr a))))
+            (s_items (l_well M)) (map meta (s_items (l_well l))) /\
+    map meta (s_items (l_version l)) =
+      map (fun a => meta (expected_item fstr KVersion c a))
+          (written_version_items (s_transforms (l_version M)) (hs_version hs)
+             (match wo_wrap o with
+              | None => s_items (l_version M)
+              | Some b => set_item (s_transforms (l_version M)) (s2l "WRAP") (WriteIdemProofs.wrap_item b)
+                                   (s_items (l_version M))
+              end)) /\
+    l_other l = other_read (l_other M) /\ l_custom l = [].
+Proof. exact roundtrip_vs_original. Qed.
+
+(* definitions used in the statement (unfolding lemmas) *)
+Theorem C03_stdf_unfold : forall fzero it,
+  stdf fzero it = mkitem (i_orig it) (i_sess it) (i_unit it) (standardize fzero (i_value it) (i_unit it)) (i_descr it).
+Proof. reflexivity. Qed.
+Theorem C03_is_sss_unfold : forall tr s,
+  is_sss tr s = mn_compare tr s (s2l "STRT") || mn_compare tr s (s2l "STOP") || mn_compare tr s (s2l "STEP").
+Proof. reflexivity. Qed.
+Theorem C03_other_read_unfold : forall txt, other_read txt = join [ch_nl] (map strip (splitlines txt)).
+Proof. reflexivity. Qed.
+
+(* non-vacuity: the hypotheses are met by ex_m / fx_text (the file of C03_ex_file_theorem), and the
+   conclusion shows a documented difference on it: the ORIGINAL ~Well item BHT.DEGC has the empty
+   value, what is read back under its name has the value 0 *)
+Example C03_ex_vs_original : forall c,
+  exists l,
+    read fx_fhex ex_fstr fx_numeq (fx_ro c true) fx_text = ROk l /\
+    map meta (tl (s_items (l_curves l))) =
+      map (fun a => meta (expected_item ex_fstr KCurves c a)) (tl (s_items (l_curves (m_las ex_m)))) /\
+    map meta (s_items (l_params l)) =
+      map (fun a => meta (expected_item ex_fstr KParameter c (stdf fx_fzero a))) (s_items (l_params (m_las ex_m))) /\
+    Forall2 (fun a r =>
+               is_sss (s_transforms (l_well (m_las ex_m))) (i_sess a) = false ->
+               r = meta (expected_item ex_fstr KWell c (stdf fx_fzero a)))
+            (s_items (l_well (m_las ex_m))) (map meta (s_items (l_well l))) /\
+    l_other l = s2l "free text".
+Proof.
+  intros c.
+  assert (Hw : write fx_fmtv fx_fmt_diff fx_fmt_pi ex_fstr fx_fzero fx_numeq fx_o ex_m = WOk fx_text (mkmlas (hs_las fx_hs) None))
+    by (vm_compute; reflexivity).
+  assert (Hs : write_sections fx_fmtv fx_fmt_diff ex_fstr fx_fzero fx_numeq (wo_version fx_o) (wo_wrap fx_o) (col_fmt fx_o 0%nat) ex_m = Some fx_hs)
+    by (vm_compute; reflexivity).
+  assert (Hdl : dsh_of fx_fmtv fx_fmt_pi ex_fstr fx_o fx_hs = Some fx_dl) by (vm_compute; reflexivity).
+  assert (Hnt : las_null_text ex_fstr (hs_las fx_hs) = Some (s2l "-999.25")) by (vm_compute; reflexivity).
+  assert (Hrts : opt_all (map (row_text fx_fmtv fx_fmt_pi fx_o (Some (s2l "-999.25")) 0%nat) (las_rows (hs_las fx_hs))) = Some fx_rts)
+    by (vm_compute; reflexivity).
+  assert (Hb : file_hypsb fx_fmtv fx_fmt_pi ex_fstr fx_fhex (fx_ro c true) fx_o fx_hs (s2l "-999.25") = true)
+    by (destruct c; vm_compute; reflexivity).
+  destruct (C03_file_hypsb_ok _ _ _ _ _ _ _ _ Hb) as ((vit & Hh) & Ht & _ & (_ & _ & _ & Hwr & Hl & Hsp & _) & Hd).
+  destruct (C03_roundtrip_vs_original fx_fmtv fx_fmt_diff fx_fmt_pi ex_fstr fx_fzero fx_numeq fx_fhex (fx_ro c true) fx_o ex_m
+              fx_text (mkmlas (hs_las fx_hs) None) fx_hs fx_dl fx_rts vit (s2l "-999.25")
+              Hw Hs Hdl Hnt Hrts Hh Ht Hwr Hl Hsp Hd)
+    as (ps & l & _ & _ & _ & Hread & _ & Hc & Hp & Hwl & _ & Ho & _).
+  exists l. split; [apply Hread; reflexivity|]. split; [exact Hc|]. split; [exact Hp|]. split.
+  - revert Hwl. generalize (s_items (l_well (m_las ex_m))) (map meta (s_items (l_well l))).
+    induction 1 as [|a r la lr (H1 & _) _ IH]; constructor; [exact H1|exact IH].
+  - rewrite Ho. vm_compute. reflexivity.
+Qed.
+Example C03_ex_vs_original_difference :
+  map i_value (s_items (l_well (m_las ex_m))) =
+    [VFloat (s2l "1.0"); VFloat (s2l "2.0"); VFloat (s2l "1.0"); VFloat (s2l "-999.25"); VStr []] /\
+  i_value (expected_item ex_fstr KWell CasePreserve (stdf fx_fzero (nth 4 (s_items (l_well (m_las ex_m))) (new_item [] [] VNone []))))
+    = VInt 0.
+Proof. vm_compute. split; reflexivity. Qed.
+
+Print Assumptions C03_written_version_items.
+Print Assumptions C03_roundtrip_vs_original.
+Print Assumptions C03_stdf_unfold.
+Print Assumptions C03_is_sss_unfold.
+Print Assumptions C03_other_read_unfold.
+(* ==== END block "against the ORIGINAL object" (audit D7) ======================================== *)
